@@ -753,3 +753,186 @@ Proof.
       * apply Hcn. apply (zsq_inj g ls _ _ IB (inlog_In _ _ Hc) (inlog_In _ _ Rn) L1).
       * apply (Rbt c Hc). change (zsq g c < zsq g a) in Hlt. lia.
 Qed.
+
+(* ---------- U_stn / U_sto: the releaser's last two stores to its own record ---------- *)
+Lemma stepB_U_stn g ls t pr h its0 :
+  InvA g ls -> InvB g ls -> nth_error ls t = Some (Loc pr U_stn h its0) ->
+  let a := own_rec (Loc pr U_stn h its0) in
+  InvB (setz g a (z_next (grec g a) None)) (upd ls t (Loc pr U_sto h its0)).
+Proof.
+  intros IA IB Hl a. set (l := Loc pr U_stn h its0) in *. set (g' := setz g a (z_next (grec g a) None)).
+  pose proof (b_thr _ _ IB t l Hl) as T. unfold thrB in T. cbn [at_ l] in T. fold a in T.
+  destruct (own_facts g ls IA IB t l Hl eq_refl) as (Ia & Oa & (w & Eh)). fold a in Ia, Oa, Eh. cbn [hnd l] in Eh.
+  destruct (b_own1 _ _ IB t w a) as (_ & Ca & Za); [rewrite (locof_at _ _ _ Hl); exact Eh|].
+  assert (Hra : isrec g a = true) by (apply (b_rec _ _ IB); apply (inlog_In _ _ Ia)).
+  destruct (onecell_setz g a (z_next (grec g a) None) Hra) as (O & Ecs & Egr). fold g' in O, Ecs, Egr.
+  assert (Hin : forall c, inlog g' c <-> inlog g c).
+  { intros c. destruct (Nat.eq_dec c a) as [->|Hc]; [|apply (oc_inlog _ _ _ O c Hc)].
+    unfold inlog. rewrite (oc_zlog _ _ _ O), Ecs. tauto. }
+  assert (Hsq : forall c, zsq g' c = zsq g c) by (apply (oc_zsq _ _ _ O)).
+  assert (Hzo : forall c, zown g' c = zown g c).
+  { intros c. destruct (Nat.eq_dec c a) as [->|Hc]; [unfold zown; rewrite Egr; reflexivity|apply (oc_zown _ _ _ O c Hc)]. }
+  assert (Hloc : forall u, locof (upd ls t (Loc pr U_sto h its0)) u = if Nat.eqb u t then Loc pr U_sto h its0 else locof ls u)
+    by (intros u; apply (locof_upd _ _ _ _ _ Hl)).
+  eapply (InvB_onecell g g' ls t l _ a IA IB Hl O (inlog_In _ _ Ia)); try reflexivity.
+  - left. reflexivity.
+  - intros z nx0 E. discriminate.
+  - left. rewrite Ecs. exact Ca.
+  - intros _. rewrite Ecs. exact Ca.
+  - intros Hi. apply Hin. exact Hi.
+  - intros Ho. rewrite Hzo. exact Ho.
+  - intros u w0 Hu. rewrite Ecs, Hzo. assert (hnd (locof ls u) = Some (w0, Some a)) as Hu'.
+    { rewrite Hloc in Hu. destruct (Nat.eqb_spec u t) as [->|]; [rewrite (locof_at _ _ _ Hl); exact Hu|exact Hu]. }
+    destruct (b_own1 _ _ IB u w0 a Hu') as (_ & B & C). auto.
+  - intros gd Hi Hg. rewrite Hzo in Hg. apply Hin in Hi. destruct (b_own2 _ _ IB a gd Hi Hg) as (u & w0 & A & B).
+    exists u, w0. split; [exact A|]. rewrite Hloc. destruct (Nat.eqb_spec u t) as [->|]; [rewrite (locof_at _ _ _ Hl) in B; exact B|exact B].
+  - unfold znd. rewrite Egr. reflexivity.
+  - intros x Hx Hns. apply Hin in Hx. destruct (Nat.eq_dec x a) as [->|Hxa].
+    + unfold link_ok, znx. rewrite Egr. cbn. intros c Hc. rewrite !Hsq. apply T. apply Hin. exact Hc.
+    + assert (~ stale g ls x) as Hns'.
+      { intros (u & w0 & A & B). destruct (Nat.eq_dec u t) as [->|Hut].
+        - rewrite (locof_at _ _ _ Hl) in A. cbn [hnd l] in A. rewrite Eh in A. inversion A. congruence.
+        - apply Hns. exists u, w0. unfold pcof in *. rewrite Hloc. destruct (Nat.eqb_spec u t); [contradiction|auto]. }
+      pose proof (b_link _ _ IB x Hx Hns') as L. apply (link_ok_same g g' x); auto.
+      * intros c Hc. apply Hin. exact Hc.
+      * apply (oc_znx _ _ _ O x Hxa).
+      * intros b Hb. apply Hin. unfold link_ok in L. rewrite Hb in L. apply L.
+  - intros u lu Hut Hu. split; [|split].
+    + intros Hul. left. intros E. apply Hut. apply (own_distinct g ls IA IB u t lu l Hu Hl Hul eq_refl E).
+    + intros m1 Hm1 E1 Hi. apply Hin. exact Hi.
+    + intros m' Hm'. apply not_eq_sym. apply (owned_not_pointer g ls IB u lu m' a Hu Hm' Ia Oa).
+Qed.
+
+Lemma stepB_U_sto g ls t pr h its0 :
+  InvA g ls -> InvB g ls -> nth_error ls t = Some (Loc pr U_sto h its0) ->
+  let a := own_rec (Loc pr U_sto h its0) in
+  InvB (setz g a (z_owner (grec g a) None)) (upd ls t (Loc pr Idle None [])).
+Proof.
+  intros IA IB Hl a. set (l := Loc pr U_sto h its0) in *. set (g' := setz g a (z_owner (grec g a) None)).
+  destruct (own_facts g ls IA IB t l Hl eq_refl) as (Ia & Oa & (w & Eh)). fold a in Ia, Oa, Eh. cbn [hnd l] in Eh.
+  destruct (b_own1 _ _ IB t w a) as (_ & Ca & Za); [rewrite (locof_at _ _ _ Hl); exact Eh|].
+  assert (Hra : isrec g a = true) by (apply (b_rec _ _ IB); apply (inlog_In _ _ Ia)).
+  destruct (onecell_setz g a (z_owner (grec g a) None) Hra) as (O & Ecs & Egr). fold g' in O, Ecs, Egr.
+  assert (Hin : forall c, inlog g' c <-> inlog g c).
+  { intros c. destruct (Nat.eq_dec c a) as [->|Hc]; [|apply (oc_inlog _ _ _ O c Hc)].
+    unfold inlog. rewrite (oc_zlog _ _ _ O), Ecs. tauto. }
+  assert (Hsq : forall c, zsq g' c = zsq g c) by (apply (oc_zsq _ _ _ O)).
+  assert (Hzx : forall c, znx g' c = znx g c).
+  { intros c. destruct (Nat.eq_dec c a) as [->|Hc]; [unfold znx; rewrite Egr; reflexivity|apply (oc_znx _ _ _ O c Hc)]. }
+  assert (Hloc : forall u, locof (upd ls t (Loc pr Idle None [])) u = if Nat.eqb u t then Loc pr Idle None [] else locof ls u)
+    by (intros u; apply (locof_upd _ _ _ _ _ Hl)).
+  eapply (InvB_onecell g g' ls t l _ a IA IB Hl O (inlog_In _ _ Ia)); try reflexivity.
+  - right. split; [reflexivity|]. exists w. exact Eh.
+  - intros z nx0 E. discriminate.
+  - left. rewrite Ecs. exact Ca.
+  - intros _. rewrite Ecs. exact Ca.
+  - intros Hi. apply Hin. exact Hi.
+  - intros _. unfold zown. rewrite Egr. reflexivity.
+  - intros u w0 Hu. exfalso. rewrite Hloc in Hu. destruct (Nat.eqb_spec u t) as [->|Hut]; [discriminate|].
+    destruct (b_own1 _ _ IB u w0 a Hu) as (_ & _ & C). rewrite Za in C. inversion C as [C']. apply guard_of_inj in C'. destruct C'; auto.
+  - intros gd _ Hg. unfold zown in Hg. rewrite Egr in Hg. discriminate.
+  - unfold znd. rewrite Egr. reflexivity.
+  - intros x Hx Hns. apply Hin in Hx.
+    assert (~ stale g ls x) as Hns'.
+    { intros (u & w0 & A & B). destruct (Nat.eq_dec u t) as [->|Hut].
+      - rewrite (pcof_at _ _ _ Hl) in B. discriminate.
+      - apply Hns. exists u, w0. unfold pcof in *. rewrite Hloc. destruct (Nat.eqb_spec u t); [contradiction|auto]. }
+    pose proof (b_link _ _ IB x Hx Hns') as L. apply (link_ok_same g g' x); auto.
+    + intros c Hc. apply Hin. exact Hc.
+    + intros b Hb. apply Hin. unfold link_ok in L. rewrite Hb in L. apply L.
+  - intros u lu Hut Hu. split; [|split].
+    + intros Hul. left. intros E. apply Hut. apply (own_distinct g ls IA IB u t lu l Hu Hl Hul eq_refl E).
+    + intros m1 Hm1 E1 Hi. apply Hin. exact Hi.
+    + intros m' Hm'. apply not_eq_sym. apply (owned_not_pointer g ls IB u lu m' a Hu Hm' Ia Oa).
+Qed.
+
+(* ---------- a successful CAS on m_zombie_head: the private record becomes the newest log record ---------- *)
+Lemma stepB_push g ls t l l' z :
+  InvA g ls -> InvB g ls -> nth_error ls t = Some l ->
+  priv_rec (at_ l) = Some z -> in_unlock (at_ l) = false -> rpc (at_ l) = false ->
+  privR g z -> cs_of g z = Some Constr -> znx g z = zhead g ->
+  (forall k, znd g z = Some k -> isnode g k = true) ->
+  ((zown g z = None /\ hnd l' = hnd l) \/
+   (exists w, hnd l = Some (w, None) /\ zown g z = Some (guard_of t w) /\ hnd l' = Some (w, Some z))) ->
+  priv_rec (at_ l') = None -> rpc (at_ l') = false -> (forall x nxt, at_ l' <> U_zf x nxt) ->
+  let g' := with_zlog (with_zhead g (Some z)) (z :: zlog g) in
+  thrB g' t l' ->
+  InvB g' (upd ls t l').
+Proof.
+  intros IA IB Hl Hp Hul Hr [Hzr Hzn] Hcs Hnx Hnd Hh Hp' Hr' Hzf g' Ht.
+  assert (EL : zlog g' = z :: zlog g) by reflexivity.
+  assert (Ecs : forall c, cs_of g' c = cs_of g c) by reflexivity.
+  assert (Egr : forall c, grec g' c = grec g c) by reflexivity.
+  assert (Eir : forall c, isrec g' c = isrec g c) by reflexivity.
+  assert (Ein : forall c, isnode g' c = isnode g c) by reflexivity.
+  assert (Sq : forall c, In c (zlog g) -> zsq g' c = zsq g c).
+  { intros c Hc. unfold zsq. rewrite EL. apply stamp_cons_old; auto. }
+  assert (Sz : zsq g' z = S (length (zlog g))) by (unfold zsq; rewrite EL; apply stamp_cons_new).
+  assert (Hin : forall c, inlog g' c <-> (c = z \/ inlog g c)).
+  { intros c. unfold inlog. rewrite EL, Ecs. cbn [In]. split.
+    - intros [[A|A] B]; [left; auto|right; auto].
+    - intros [->|[A B]]; [split; [left; reflexivity|congruence]|split; [right; exact A|exact B]]. }
+  assert (Hlt : forall c, In c (zlog g) -> zsq g' c < zsq g' z).
+  { intros c Hc. rewrite (Sq c Hc), Sz. pose proof (zsq_pos g c Hc). lia. }
+  assert (Hloc : forall u, locof (upd ls t l') u = if Nat.eqb u t then l' else locof ls u) by (intros u; apply (locof_upd _ _ _ _ _ Hl)).
+  assert (Elt : locof ls t = l) by (apply locof_at; exact Hl).
+  assert (Hst : forall x, stale g' (upd ls t l') x <-> stale g ls x).
+  { intros x. split; intros (u & w & A & B); exists u, w; unfold pcof in *.
+    - rewrite Hloc in A, B. destruct (Nat.eqb_spec u t) as [->|]; [congruence|auto].
+    - rewrite Hloc. destruct (Nat.eqb_spec u t) as [->|]; [rewrite Elt in B; congruence|auto]. }
+  constructor.
+  - rewrite EL. constructor; [exact Hzn|apply (b_nodup _ _ IB)].
+  - intros c. rewrite EL, Eir. intros [<-|Hc]; [exact Hzr|apply (b_rec _ _ IB c Hc)].
+  - intros c. rewrite EL, Ecs. intros [<-|Hc]; [left; exact Hcs|].
+    destruct (b_cs _ _ IB c Hc) as [A|[A|(A & u & nxt & B)]]; auto. right. right. split; [exact A|].
+    exists u, nxt. rewrite (pcof_upd _ _ _ _ _ Hl). destruct (Nat.eqb_spec u t) as [->|]; [|exact B].
+    rewrite (pcof_at _ _ _ Hl) in B. rewrite B in Hp. discriminate.
+  - reflexivity.
+  - intros h0 E. cbn in E. inversion E; subst h0. rewrite Ecs. exact Hcs.
+  - (* links *)
+    intros x Hx Hns. apply Hin in Hx. destruct Hx as [->|Hx].
+    + unfold link_ok, znx. rewrite Egr. fold (znx g z). rewrite Hnx. destruct (zhead g) as [h0|] eqn:Eh.
+      * destruct (head_stamp g ls h0 IB Eh) as [Hh0 Sh]. split; [apply Hin; right; split; [exact Hh0|rewrite (b_top _ _ IB h0 Eh); discriminate]|].
+        split; [apply Hlt; exact Hh0|]. intros c Hc Hb. apply Hin in Hc. destruct Hc as [->|Hc]; [lia|].
+        rewrite (Sq c (inlog_In _ _ Hc)), (Sq h0 Hh0), Sh in Hb. pose proof (zsq_pos g c (inlog_In _ _ Hc)). lia.
+      * pose proof (b_head _ _ IB) as E. rewrite Eh in E. intros c Hc Hb. apply Hin in Hc. destruct Hc as [->|Hc]; [lia|].
+        pose proof (inlog_In _ _ Hc) as Hci. destruct (zlog g); [destruct Hci|discriminate].
+    + assert (~ stale g ls x) as Hns' by (intros S; apply Hns, Hst, S).
+      pose proof (b_link _ _ IB x Hx Hns') as L. unfold link_ok, znx in *. rewrite Egr.
+      pose proof (inlog_In _ _ Hx) as Hxi.
+      destruct (znext (grec g x)) as [b|].
+      * destruct L as (A & B & C). rewrite (Sq x Hxi), (Sq b (inlog_In _ _ A)). split; [apply Hin; right; exact A|split; [exact B|]].
+        intros c Hc Hb. apply Hin in Hc. destruct Hc as [->|Hc].
+        -- rewrite Sz in Hb. pose proof (zsq_pos g x Hxi). lia.
+        -- rewrite (Sq c (inlog_In _ _ Hc)) in Hb. apply (C c Hc Hb).
+      * intros c Hc Hb. rewrite (Sq x Hxi) in Hb. apply Hin in Hc. destruct Hc as [->|Hc].
+        -- rewrite Sz in Hb. pose proof (zsq_pos g x Hxi). lia.
+        -- rewrite (Sq c (inlog_In _ _ Hc)) in Hb. apply (L c Hc Hb).
+  - intros u w x Hx. rewrite Hloc in Hx. rewrite EL, Ecs. unfold zown. rewrite Egr. fold (zown g x).
+    destruct (Nat.eqb_spec u t) as [->|Hut].
+    + destruct Hh as [[A B]|(w0 & A & B & C)].
+      * rewrite B in Hx. rewrite <- Elt in Hx. destruct (b_own1 _ _ IB t w x Hx) as (P & Q & R). split; [right; exact P|auto].
+      * rewrite C in Hx. inversion Hx; subst. split; [left; reflexivity|auto].
+    + destruct (b_own1 _ _ IB u w x Hx) as (P & Q & R). split; [right; exact P|auto].
+  - intros x gd Hx Hg. unfold zown in Hg. rewrite Egr in Hg. fold (zown g x) in Hg. apply Hin in Hx. destruct Hx as [->|Hx].
+    + destruct Hh as [[A B]|(w0 & A & B & C)]; [congruence|]. rewrite B in Hg. inversion Hg; subst gd.
+      exists t, w0. split; [reflexivity|]. rewrite Hloc, Nat.eqb_refl. exact C.
+    + destruct (b_own2 _ _ IB x gd Hx Hg) as (u & w & A & B). exists u, w. split; [exact A|]. rewrite Hloc.
+      destruct (Nat.eqb_spec u t) as [->|]; [|exact B]. rewrite Elt in B.
+      destruct Hh as [[P Q]|(w0 & P & Q & R)]; [rewrite Q; exact B|congruence].
+  - intros x k. rewrite EL, Ein. unfold znd. rewrite Egr. intros [<-|Hx] Hk; [apply Hnd; exact Hk|apply (b_node _ _ IB x k Hx Hk)].
+  - intros u v x Hu Hv. rewrite (pcof_upd _ _ _ _ _ Hl) in Hu. rewrite (pcof_upd _ _ _ _ _ Hl) in Hv.
+    destruct (Nat.eqb_spec u t) as [->|Hut]; [congruence|]. destruct (Nat.eqb_spec v t) as [->|Hvt]; [congruence|].
+    apply (b_priv _ _ IB u v x); auto.
+  - intros u lu Hu. apply nth_upd in Hu. destruct Hu as [(-> & -> & _)|(Hne & Hu)]; [exact Ht|].
+    apply (thrB_env g g' u lu); try (apply (b_thr _ _ IB u lu Hu)).
+    + intros c Hc. split; [rewrite EL; right; exact Hc|apply Sq; exact Hc].
+    + intros c Hc. apply Hin in Hc. destruct Hc as [->|Hc]; [right; split; [exact Hzn|apply Hlt]|left; exact Hc].
+    + intros c _ Ho. unfold zown. rewrite Egr. exact Ho.
+    + intros j. rewrite Ein. auto.
+    + intros x Hx. rewrite Eir, Ecs, Egr, EL. repeat split; auto. intros [E|E]; [|exact E]. exfalso. subst x.
+      assert (u = t) by (apply (b_priv _ _ IB u t z); [rewrite (pcof_at _ _ _ Hu); exact Hx|rewrite (pcof_at _ _ _ Hl); exact Hp]). auto.
+    + intros Hlu. destruct (own_in_log g ls u lu IA IB Hu Hlu) as [A _]. split; [exact A|]. unfold znx. rewrite Egr. reflexivity.
+    + intros m _ Hi. apply Hin. right. exact Hi.
+    + intros n _. rewrite Ecs, Egr. auto.
+Qed.
